@@ -293,6 +293,18 @@ def run(ctx):
         def fields_of(e):
             return {t[2] for t in walk(e) if isinstance(t, tuple) and t[0] == "fld" and isinstance(t[2], str)}
 
+        def plain_sub(e):
+            """`a.checked_sub(b)?` computes a - b or leaves the function: read it as the subtraction it guards."""
+            if not isinstance(e, tuple):
+                return e
+            if e[0] == "fld" and len(e) == 3 and e[2] in ("0", 0) and isinstance(e[1], tuple) and e[1][0] == "down" and e[1][2] == "Continue":
+                c = e[1][1]
+                if isinstance(c, tuple) and c[0] == "call" and c[1].endswith("Try>::branch") and len(c[2]) == 1:
+                    a = c[2][0]
+                    if isinstance(a, tuple) and a[0] == "call" and a[1].split("::")[-1] == "checked_sub" and len(a[2]) == 2:
+                        return ("bin", "Sub", plain_sub(a[2][0]), plain_sub(a[2][1]))
+            return tuple(plain_sub(x) if isinstance(x, tuple) else x for x in e)
+
         def aligned(e, length_field):
             """e == ((length + 143) & 0xFFFFFF80) with `length` the named header field."""
             e = N(e)
@@ -316,13 +328,13 @@ def run(ctx):
             for (_bb, callee, args, _res) in p.events:
                 last = callee.split("::")[-1]
                 if last == "from_elem" and len(args) == 2 and "compressed_length" in fields_of(args[1]) and "decompressed_length" not in fields_of(args[1]):
-                    e = N(args[1])
+                    e = N(plain_sub(args[1]))
                     ok = isinstance(e, tuple) and e[0] == "bin" and e[1] == "Sub" and aligned(e[2], "compressed_length") and fields_of(e[3]) >= {"size"} and not any(isinstance(t, tuple) and t[0] == "bin" for t in walk(e[3]))
                     comp_ok = ok if comp_ok is None else (comp_ok and ok)
                 if last == "seek" and len(args) == 2 and "file_size" in fields_of(args[1]):
                     cur = [t for t in walk(args[1]) if isinstance(t, tuple) and t[0] == "agg" and t[2].endswith("SeekFrom::Current")]
                     if cur:
-                        e = N(cur[0][3][0])
+                        e = N(plain_sub(cur[0][3][0]))
                         # (aligned(file_size) - size) - file_size
                         ok = isinstance(e, tuple) and e[0] == "bin" and e[1] == "Sub" and "file_size" in fields_of(e[3]) and isinstance(e[2], tuple) and e[2][0] == "bin" and e[2][1] == "Sub" and aligned(e[2][2], "file_size") and "size" in fields_of(e[2][3])
                         raw_ok = ok if raw_ok is None else (raw_ok and ok)
